@@ -44,6 +44,8 @@ JudgeDoc(rec) ==
             THEN V(FALSE, rec.in.kind, "vector bytes are not the rendering of the model")
        ELSE IF bad # {} THEN V(FALSE, rec.in.kind, "field " \o t[first][2] \o " of the typed view differs from the document")
        ELSE IF ~AccOK(rec) THEN V(FALSE, rec.in.kind, "an accessor derived from the fields disagrees with the document")
+       ELSE IF rec.flat2 # rec.flat \/ rec.acc2 # rec.acc
+            THEN V(FALSE, rec.in.kind, "calling the accessors changed the fields, or a second call answers differently")
        ELSE V(TRUE, rec.in.kind, "")
 
 Judge(rec) ==
